@@ -66,8 +66,15 @@ impl Ctx {
 
     /// Judge a connection-level error observed by an application operation.
     pub fn conn_err(&self, e: &ConnectionError, what: &str) {
-        let Some(ce) = self.env.closing(self.k).filter(|_| !self.env.st.lock().unwrap().pairs[self.k].lost_early) else {
+        let lost_early = self.env.st.lock().unwrap().pairs[self.k].lost_early;
+        let Some(ce) = self.env.closing(self.k).filter(|_| !lost_early) else {
             self.env.st.lock().unwrap().pairs[self.k].lost_early = true;
+            if lost_early && self.env.closing(self.k).is_some() {
+                // follow-on of a connection that had already been lost before the planned close: the
+                // loss itself was reported (as a note for the owning property); nothing more to judge
+                self.env.inc("close.after_early_loss");
+                return;
+            }
             let parked: Vec<String> = self.env.st.lock().unwrap().pending.values().filter(|p| p.ck / 2 == self.k).take(10).map(|p| format!("{}({}{})", p.kind.name(), if p.ck % 2 == 0 { "C" } else { "S" }, p.sid.map(|s| format!(" s{s}")).unwrap_or_default())).collect();
             // On the deterministic lanes a lost wakeup is caught directly by the probe, so a connection
             // that dies here is a protocol-level liveness matter (C02/C08), reported as a note; on the
